@@ -108,6 +108,14 @@ func init() {
 	models["strings.TrimPrefix"] = pureStr("A-STRINGS", func(e *Exec, a []*Term) Val {
 		return Ite(mk("str.prefixof", SBool, a[1], a[0]), mk("str.substr", SString, a[0], mk("str.len", SInt, a[1]), mk("str.len", SInt, a[0])), a[0])
 	})
+	models["strings.CutPrefix"] = pureStr("A-STRINGS", func(e *Exec, a []*Term) Val {
+		found := mk("str.prefixof", SBool, a[1], a[0])
+		return Tuple{Ite(found, mk("str.substr", SString, a[0], mk("str.len", SInt, a[1]), Sub(mk("str.len", SInt, a[0]), mk("str.len", SInt, a[1]))), a[0]), found}
+	})
+	models["strings.CutSuffix"] = pureStr("A-STRINGS", func(e *Exec, a []*Term) Val {
+		found := mk("str.suffixof", SBool, a[1], a[0])
+		return Tuple{Ite(found, mk("str.substr", SString, a[0], IntLit(0), Sub(mk("str.len", SInt, a[0]), mk("str.len", SInt, a[1]))), a[0]), found}
+	})
 	models["strings.ReplaceAll"] = pureStr("A-STRINGS", func(e *Exec, a []*Term) Val {
 		r := sfn("m_replaceAll", SString, a[0], a[1], a[2])
 		// post-facts used by the path rules (single-character old): result contains no `old`, has the same length,
@@ -348,24 +356,31 @@ var errorMethodModel = &Model{Assumption: "A-FMT", ApplyInvoke: func(e *Exec, c 
 // unconstrained (nil-able). NotifyErrorListeners increments the ghost error counter.
 var antlrGetterModel = &Model{Assumption: "A-ANTLR-RT", ApplyInvoke: func(e *Exec, c *ssa.CallCommon, recv *Term, args []Val) Val {
 	e.safety("nilderef", Neq(ITag(recv), IntLit(0)))
-	name := c.Method.Name()
+	var as []*Term
+	for i, a := range args {
+		as = append(as, e.toTerm(a, c.Args[i].Type()))
+	}
+	return e.antlrResult(c.Method.Name(), IVal(recv), as, c.Signature().Results())
+}}
+
+// antlrResult: ANTLR context/token/parser methods are pure functions of the receiver object and their arguments
+// (A-ANTLR-RT); the same symbol is used for calls through an interface, static calls on the concrete context types and
+// uses inside contracts, so all of them agree. NotifyErrorListeners increments the ghost error counter.
+func (e *Exec) antlrResult(name string, recv *Term, args []*Term, res *types.Tuple) Val {
 	if name == "NotifyErrorListeners" {
 		e.bumpErrs()
 		return nil
 	}
-	res := c.Signature().Results()
 	if res.Len() == 0 {
 		return nil
 	}
-	var as []*Term
-	as = append(as, recv)
-	for i, a := range args {
-		as = append(as, e.toTerm(a, c.Args[i].Type()))
-	}
+	as := append([]*Term{recv}, args...)
 	mkRes := func(i int) *Term {
 		t := res.At(i).Type()
 		r := sfn(fmt.Sprintf("antlr_%s_%d", name, i), sortOf(t), as...)
-		e.assume(wfTerm(r, t, e.entryNextOrCur()))
+		if r.flags&flagHasBound == 0 {
+			e.assume(wfTerm(r, t, e.entryNextOrCur()))
+		}
 		return r
 	}
 	if res.Len() == 1 {
@@ -376,7 +391,57 @@ var antlrGetterModel = &Model{Assumption: "A-ANTLR-RT", ApplyInvoke: func(e *Exe
 		out[i] = mkRes(i)
 	}
 	return out
-}}
+}
+
+func isAntlrPkg(path string) bool {
+	return strings.Contains(path, "antlr4-go/antlr") || strings.HasSuffix(path, "/pkg/go/gen")
+}
+
+// antlrStatic reports whether f is a method of the ANTLR runtime or of the generated parser that is NOT a plain field
+// getter (those are inlined): such methods are abstracted by antlrResult.
+func antlrStatic(f *ssa.Function) bool {
+	if f.Signature.Recv() == nil {
+		return false
+	}
+	path := ""
+	if f.Pkg != nil {
+		path = f.Pkg.Pkg.Path()
+	} else if o := f.Origin(); o != nil && o.Pkg != nil {
+		path = o.Pkg.Pkg.Path()
+	} else if named, ok := derefNamed(f.Signature.Recv().Type()); ok && named.Obj().Pkg() != nil {
+		path = named.Obj().Pkg().Path() // wrapper/promoted method synthesized by ssa
+	}
+	if !isAntlrPkg(path) {
+		return false
+	}
+	if len(f.Blocks) == 0 {
+		return true
+	}
+	n := 0
+	for _, b := range f.Blocks {
+		for _, s := range b.Succs {
+			if s.Dominates(b) {
+				return true
+			}
+		}
+		for _, in := range b.Instrs {
+			n++
+			switch in.(type) {
+			case *ssa.Call, *ssa.TypeAssert, *ssa.MakeInterface, *ssa.Alloc, *ssa.Store:
+				return true
+			}
+		}
+	}
+	return n > 14
+}
+
+func derefNamed(t types.Type) (*types.Named, bool) {
+	if p, ok := t.(*types.Pointer); ok {
+		t = p.Elem()
+	}
+	n, ok := t.(*types.Named)
+	return n, ok
+}
 
 func (e *Exec) entryNextOrCur() *Term { return e.root().entry.next }
 
